@@ -283,7 +283,10 @@ def gen_request (rng, xid):
                 queue_id=rng.choice([0xffffffff, 0xffffffff, 0, 7]))
   elif t == 0xffff: body = dict(vendor=0x2320, data=b"\0" * 4)
   else: body = b"\0" * rng.choice([0, 4])
-  return msg("stats_request", type=t, flags=0, body=body)
+  # (the request's flags field is reserved in 1.0; whatever it holds must not
+  #  leak into the reply's "more parts follow" bit)
+  return msg("stats_request", type=t, flags=rng.choice([0, 0, 0, 1, 0xffff, 2]),
+             body=body)
 
 
 def new_switch ():
@@ -361,6 +364,12 @@ def run_sequence (case, rep):
         fire("%s answered with %s" % (lab, describe(m)), "expected %s" % exp[1])
         ok = False; continue
       rep.count("replies_checked")
+      if m["name"] == "stats_reply" and (m["flags"] & 1):
+        # the only reply announces a continuation that never comes: the
+        # request is not (completely) answered
+        fire("%s single reply has the more-parts flag set" % lab,
+             "reply flags 0x%04x, request flags 0x%04x" % (m["flags"], req.get("flags", 0)))
+        ok = False
       why = exp[2](m)
       if why:
         fire("%s reply content: %s" % (lab, why.split(" ")[0]), why); ok = False
